@@ -87,6 +87,8 @@ IMPORTS = {
             ("C29", {"pdu-roles"}, "release and abort go out through send(), limited by the peer's maximum as negotiated", 20, None),
             ("C27", {"wire-loop"}, "release() judges the peer's answer by what receive() returns: receive hands on every PDU the wire reader yields", 5,
              lambda i: str(i["instance"]).startswith(("(g)", "(h)", "(i)")))],
+    "C31": [("C04", {"padding-byte", "bytes-written", "even-round", "unit-width", "date-time-width"},
+             "the group length counts the canonical encoded size of each element: what the encoder writes (value, separators, padding) must be that size", 120, None)],
     "C32": [("C27", {"wire-loop"}, "the SCP receives every PDU whatever the segmentation", 39, None),
             ("C03", {"endianness-purity", "vr-header-form", "header-layout"}, "the stored file is the received data set decoded and re-encoded in the negotiated transfer syntax", 340, None)],
     "C33": [("C26", {"header-setup", "writer-siblings", "async-state", "writer-max-from-peer"}, "the SCU's data set goes out through the P-DATA writer", 28, None)],
